@@ -1,6 +1,6 @@
 (* Driver entry points for C10: the pattern-parser model (Model/Parser.v). *)
 From Coq Require Import FMapPositive.
-From Verif Require Import Base.Prelude Base.Wire Model.Options Model.GroupMap Model.CharClass Model.Parser Extract.Drv16.
+From Verif Require Import Base.Prelude Base.Wire Model.Options Model.ParseLit Model.GroupMap Model.CharClass Model.Parser Extract.Drv16.
 
 (* ---- oracle tables shipped with each case
    rune rows:  (rune, IsWordChar, ToLower, SimpleFold, participatesInCaseConversion)
@@ -35,9 +35,42 @@ Fixpoint e_rnode (x : rnode) : list Z :=
       :: (fix go (ks : list rnode) : list Z := match ks with [] => [] | k :: ks' => e_rnode k ++ go ks' end) kids
   end.
 
+(* ---- two facts checked on every tree the model produces (and so, through the equality test of the leg, on every
+   real tree inside the fragment):
+   nums_okb: every group number of a Capture / Ref / BackRefCond node is a key of the capture table (for a balancing
+             group the popped number is, and the pushed one is -1 or is) - what the writer's remap assumes;
+   dir_okb:  a node runs in the direction of its parent unless it is a lookaround node, the (unwrapped) condition of
+             an expression conditional, a loop made by quantifying a lookaround (makeQuantifier gives it the unit's options),
+             or an Empty / Nothing leaf (what is left of an empty lookaround): the
+             RightToLeft bit set by "(?<=" / "(?<!" is carried by the whole body *)
+Fixpoint nums_okb (caps : list Z) (x : rnode) : bool :=
+  match x with
+  | RN t _ _ m n _ _ kids =>
+      (if t =? T_Capture then (if n =? -1 then zmem m caps else zmem n caps && ((m =? -1) || zmem m caps))
+       else if (t =? T_Ref) || (t =? T_BackRefCond) then zmem m caps else true)
+      && (fix go (ks : list rnode) : bool := match ks with [] => true | k :: ks' => nums_okb caps k && go ks' end) kids
+  end.
+
+Fixpoint dir_okb (x : rnode) : bool :=
+  match x with
+  | RN t o _ _ _ _ _ kids =>
+      (fix go (first : bool) (ks : list rnode) : bool :=
+         match ks with
+         | [] => true
+         | k :: ks' =>
+             (Bool.eqb (useRTL (n_o k)) (useRTL o)
+              || (n_t k =? T_PosLook) || (n_t k =? T_NegLook)
+              || (((n_t k =? T_Loop) || (n_t k =? T_Lazyloop)) &&
+                  match n_kids k with k2 :: _ => (n_t k2 =? T_PosLook) || (n_t k2 =? T_NegLook) | [] => false end)
+              || (first && (t =? T_ExprCond))
+              || (((n_t k =? T_Empty) || (n_t k =? T_Nothing)) && match n_kids k with [] => true | _ => false end))
+             && dir_okb k && go false ks'
+         end) true kids
+  end.
+
 Definition e_presult (r : presult) : list Z :=
   match r with
-  | PR_Tree t caps captop => 0 :: e_rnode t ++ e_zlist caps ++ [captop]
+  | PR_Tree t caps captop => 0 :: e_rnode t ++ e_zlist caps ++ [captop] ++ e_bool (nums_okb caps t) ++ e_bool (dir_okb t)
   | PR_Err c => [1; c]
   | PR_Outside => [2]
   end.
